@@ -154,14 +154,18 @@ func (s *Store[H]) Stop(ctx context.Context) error {
 	// signal to prevent further writes to Store
 	select {
 	case s.writes <- nil:
-		s.cancel()
 	case <-ctx.Done():
 		return ctx.Err()
 	}
 	// wait till it is done writing
+	// the writes queued before the signal are still processed with a live context:
+	// advancing the head over them must not be skipped
 	select {
 	case <-s.writesDn:
+		s.cancel()
 	case <-ctx.Done():
+		// give up waiting and abort whatever the write loop is doing
+		s.cancel()
 		return ctx.Err()
 	}
 
